@@ -243,6 +243,10 @@ func (e *Engine) namedType(pkgPath, name string) types.Type {
 
 func (x *Exec) bufLen(st *State, b Term) Term {
 	t := Select(x.heapGet(st, kBufLen, arrOf(SInt)), b)
+	// lengths are never negative (fact about the abstract buffer state, not about the path)
+	if strings.HasPrefix(t.S, "(select |H!") {
+		x.fact("blen:"+t.S, And(Ge(t, IntLit(0)), Le(t, BigLit(pow2(48)))))
+	}
 	return t
 }
 func (x *Exec) setBufLen(st *State, b, n Term) {
